@@ -161,11 +161,24 @@ def _dense_free_rand(gen, *shape):
     return torch.rand(*shape, generator=gen, dtype=torch.float64)
 
 
-def _fd(fun, eps: float):
-    """Richardson-extrapolated central difference of a scalar function of one real variable."""
-    f1 = (fun(2 * eps) - fun(-2 * eps)) / (4 * eps)
-    f2 = (fun(eps) - fun(-eps)) / (2 * eps)
-    return (4 * f2 - f1) / 3.0, abs(f2 - f1)
+FD_TOL = 1e-12  # krylov_tolerance of every forward evaluation that enters a finite difference
+
+
+def _compare(ad: float, fun, eps: float, noise_L: float, floor: float):
+    """AD value against central differences of `fun` at THREE step sizes (4 eps, 2 eps, eps) and their two
+    Richardson extrapolations r1 (coarse pair), r2 (fine pair).  Budget =
+        1e-5 relative  +  4 |r2 - r1|  (truncation / a kink inside the stencil / noise show up as disagreement)
+      + 4 noise_L / eps  (noise_L = bound on the error of ONE forward value: 10 * krylov_tol * steps * Lipschitz
+                          constant of the loss in the state; a central difference divides it by the step)
+      + floor.
+    Alarm only if the AD value is outside the budget of BOTH extrapolations.  Returns (fd, budget, err)."""
+    c4 = (fun(4 * eps) - fun(-4 * eps)) / (8 * eps)
+    c2 = (fun(2 * eps) - fun(-2 * eps)) / (4 * eps)
+    c1 = (fun(eps) - fun(-eps)) / (2 * eps)
+    r1 = (4 * c2 - c4) / 3.0
+    r2 = (4 * c1 - c2) / 3.0
+    budget = 1e-5 * max(abs(ad), abs(r2)) + 4 * abs(r2 - r1) + 4 * noise_L / eps + floor
+    return r2, budget, min(abs(ad - r2), abs(ad - r1))
 
 
 def classify_exc(ex: Exception) -> str:
@@ -224,8 +237,13 @@ def step_worker(item: dict) -> dict:
         state = torch.complex(p["state_re"], p["state_im"])
         out, _ = EvolveStateVector.apply(dt, p["omega"].to(torch.complex128) if item["complex_params"] else p["omega"],
                                          p["delta"].to(torch.complex128) if item["complex_params"] else p["delta"],
-                                         p["phi"].to(torch.complex128) if item["complex_params"] else p["phi"], p["U"], state, tol, [])
+                                         p["phi"].to(torch.complex128) if item["complex_params"] else p["phi"], p["U"], state,
+                                         tol if grad else FD_TOL, [])
         return loss_of(out)
+
+    # one forward value is off by at most 10 * tol * |psi| (C07's budget); the losses are 1- or 2-Lipschitz in the state
+    lip = {"overlap-real": 1.0, "overlap-abs2": 2.0}.get(item["loss"], 2.0)
+    noise_L = 10 * FD_TOL * lip * 2.0  # |psi| <= 1 at the base point, <= 2 with a perturbed (unnormalised) input state
 
     r = {"id": item["id"], "fails": [], "checked": 0, "worst": 0.0, "skipped": None}
     leaves = {k: v.clone().requires_grad_(True) for k, v in P.items()}
@@ -263,14 +281,13 @@ def step_worker(item: dict) -> dict:
                     return float(forward(q, False))
 
             try:
-                fd, spread = _fd(fun, 1e-2)
+                fd, budget, err = _compare(ad, fun, 1e-2, noise_L, 1e-8)
             except Exception as ex:
                 r["skipped"] = f"forward failed without autograd: {type(ex).__name__}"
                 continue
-            budget = 1e-5 * max(abs(ad), abs(fd)) + 1e-7 + 2 * spread
             r["checked"] += 1
-            r["worst"] = max(r["worst"], abs(ad - fd) / budget)
-            if abs(ad - fd) > budget:
+            r["worst"] = max(r["worst"], err / budget)
+            if err > budget:
                 r["fails"].append(("mismatch", name, {"ad": ad, "fd": fd, "budget": budget, "context": "single step", "loss": item["loss"]}))
     return r
 
@@ -306,6 +323,7 @@ def _loss_from_results(res, lossname: str, gen_seed: int, n: int, const=None):
     tags, _, _ = OBS_LOSSES[lossname]
     gen = torch.Generator().manual_seed(gen_seed)
     total = 0.0
+    wsum = 0.0  # sum of |weights| (Lipschitz bookkeeping of the loss)
     for tag in tags:
         vals = getattr(res, tag)
         for v in vals:
@@ -313,15 +331,18 @@ def _loss_from_results(res, lossname: str, gen_seed: int, n: int, const=None):
                 d = v.data
                 rv = torch.randn(d.shape, generator=gen, dtype=torch.float64) + 1j * torch.randn(d.shape, generator=gen, dtype=torch.float64)
                 total = total + torch.vdot(rv.to(d.dtype), d).real
+                wsum += float(rv.norm())
             else:
                 v = torch.as_tensor(v)
                 w = torch.rand(v.shape, generator=gen, dtype=torch.float64) + 0.5
                 total = total + (w * v).sum()
+                wsum += float(w.sum())
     if lossname == "zero-upstream":
         o = torch.as_tensor(res.occupation[-1])
         c = o.detach() if const is None else const
         total = ((o - c) ** 2).sum()  # exactly zero upstream gradient at the base point
-    return total
+        wsum = 2.0 * o.numel()
+    return total, wsum
 
 
 def run_worker(item: dict) -> dict:
@@ -364,25 +385,26 @@ def run_worker(item: dict) -> dict:
     if psi0 is not None:
         P["state_re"], P["state_im"] = psi0.real.clone(), psi0.imag.clone()
 
-    def forward(p, const=None):
+    def forward(p, const=None, tol_use=FD_TOL):
         phi = p.get("phi", ph)
         init = None
         if psi0 is not None:
             init = StateVector(torch.complex(p["state_re"], p["state_im"]), gpu=False)
-        cfg = SVConfig(observables=_observables(tags, times), log_level=logging.ERROR, gpu=False, krylov_tolerance=tol, initial_state=init)
+        cfg = SVConfig(observables=_observables(tags, times), log_level=logging.ERROR, gpu=False, krylov_tolerance=tol_use, initial_state=init)
         Umat = p["U"]
         sd = SequenceData(omega=p["omega"].to(torch.complex128), delta=p["delta"].to(torch.complex128), phi=phi.to(torch.complex128),
                           interaction_matrix=lambda t: Umat, qubit_ids=tuple(f"q{i}" for i in range(n)), bad_atoms=(False,) * n,
                           lindblad_ops=[], state_prep_error=0.0, target_times=tt, eigenstates=["r", "g"], hamiltonian_type=HamiltonianType.Rydberg)
         res = SVBackend._run_from_sequence_data(sd, cfg)
-        return _loss_from_results(res, item["loss"], item["seed"] + 1, n, const), res
+        lossv, wsum = _loss_from_results(res, item["loss"], item["seed"] + 1, n, const)
+        return lossv, res, wsum
 
     r = {"id": item["id"], "fails": [], "checked": 0, "worst": 0.0, "skipped": None, "sample": None}
     ctxt = f"emu-sv run, loss {item['loss']}, phase {item['phase']}, init {item['init']}"
     # does the plain forward work at all?  (otherwise it is some other property's subject)
     try:
         with torch.no_grad():
-            base, res0 = forward({k: v.clone() for k, v in P.items()})
+            base, res0, wsum = forward({k: v.clone() for k, v in P.items()})
         const = torch.as_tensor(res0.occupation[-1]).clone() if item["loss"] == "zero-upstream" else None
     except Exception as ex:
         if classify_exc(ex) in ("state-result-deepcopy",):
@@ -391,7 +413,7 @@ def run_worker(item: dict) -> dict:
         return r
     leaves = {k: v.clone().requires_grad_(True) for k, v in P.items()}
     try:
-        L, _ = forward(leaves, const)
+        L, _, _ = forward(leaves, const, tol)
         grads = torch.autograd.grad(L, list(leaves.values()), allow_unused=True)
     except Exception as ex:
         cls = classify_exc(ex)
@@ -400,6 +422,11 @@ def run_worker(item: dict) -> dict:
         r["fails"].append(("raises", cls, {"error": f"{type(ex).__name__}: {str(ex)[:200]}", "context": ctxt, "family": family}))
         return r
     grads = dict(zip(leaves, grads))
+    # error bound of ONE forward loss value: every step adds at most 10 * tol to the state (C07), the loss is
+    # Lipschitz in the state with constant 2 * (sum of weights) * |observable| (|H| <= hb for the energy family)
+    hb = float((om.abs().sum(dim=1) + de.abs().sum(dim=1)).max() + torch.triu(U, 1).abs().sum()) * 1.5 + 1.0
+    obs_norm = {"energy": hb, "energy_variance": 2 * hb * hb, "energy_second_moment": 2 * hb * hb}.get(tags[0], 1.0)
+    noise_L = 10 * FD_TOL * K * 2.0 * wsum * obs_norm * 2.0
     r["sample"] = {"loss": float(L), "n": n, "steps": K, "grad_omega_row0": None if grads["omega"] is None else [float(a) for a in grads["omega"][0]]}
     for name, g in grads.items():
         if g is None:
@@ -426,14 +453,13 @@ def run_worker(item: dict) -> dict:
                     return float(forward(q, const)[0])
 
             try:
-                fd, spread = _fd(fun, 1e-2)
+                fd, budget, err = _compare(ad, fun, 1e-2, noise_L, 1e-8 * max(1.0, abs(float(base))))
             except Exception as ex:
                 r["skipped"] = f"forward failed without autograd: {type(ex).__name__}"
                 continue
-            budget = 1e-5 * max(abs(ad), abs(fd)) + 1e-7 * max(1.0, abs(float(base))) + 2 * spread
             r["checked"] += 1
-            r["worst"] = max(r["worst"], abs(ad - fd) / budget)
-            if abs(ad - fd) > budget:
+            r["worst"] = max(r["worst"], err / budget)
+            if err > budget:
                 r["fails"].append(("mismatch", family, {"param": name, "direction": "one-step-row" if trial else "random", "ad": ad, "fd": fd,
                                                         "budget": budget, "context": ctxt}))
     return r
@@ -499,14 +525,64 @@ def pulser_worker(item: dict) -> dict:
         return r
     r["sample"] = {"kind": kind, "params": item["params"], "grad": [None if g is None else float(g) for g in grads]}
     used = {"constant": [0, 1], "ramp": [0, 1, 2], "blackman": [0, 1, 2], "blackman-constant-detuning": [0, 1], "composite": [0, 1, 2], "two-pulses": [0, 1, 2]}[kind]
+    pnames = ["amplitude", "detuning", "second"]
+    from pulser.sampler import sampler
+
+    # ---- Pulser's own part of the chain: its samples and their Jacobian w.r.t. the waveform parameters.
+    # The emulators answer for d(result)/d(samples); Pulser answers for d(samples)/d(parameter).  Where Pulser's
+    # autograd Jacobian disagrees with the finite differences of Pulser's own samples (e.g. RampWaveform clips its
+    # samples to [start, stop]: a last sample one ulp outside gets gradient 0 although its value follows `stop`),
+    # an end-to-end AD-vs-FD difference says nothing about the emulators: that parameter is skipped end-to-end
+    # (counted) and covered by the sample-level comparison below.
+    def samples_of(p):
+        cs = sampler.sample(build(p)).channel_samples["ryd"]
+        return cs.amp.as_tensor(), cs.det.as_tensor(), cs.phase.as_tensor()
+
+    with torch.no_grad():
+        a0, d0, ph0 = samples_of([b.clone() for b in base])
+    T = a0.numel()
+    nsteps = int(math.ceil(T / dt)) + 1
+    noise_L = 10 * FD_TOL * nsteps * 2.0 * float(w.sum())
+    floor = 1e-8 * max(1.0, abs(base_val))
+    jac_fd = {}
+    consistent = {}
+    try:
+        la, ld, _ = samples_of(leaves)
+        for i in used:
+            e = 1e-4
+            qp = [b.clone() for b in base]
+            qm = [b.clone() for b in base]
+            qp[i] = qp[i] + e
+            qm[i] = qm[i] - e
+            with torch.no_grad():
+                ap, dp, _ = samples_of(qp)
+                am, dm, _ = samples_of(qm)
+            jac_fd[i] = ((ap - am) / (2 * e), (dp - dm) / (2 * e))
+            ja = torch.zeros(T, dtype=torch.float64)
+            jd = torch.zeros(T, dtype=torch.float64)
+            for j in range(T):
+                for src, dst in ((la, ja), (ld, jd)):
+                    if src.requires_grad:
+                        (gj,) = torch.autograd.grad(src[j], leaves[i], retain_graph=True, allow_unused=True)
+                        dst[j] = 0.0 if gj is None else float(gj)
+            dev = max(float((ja - jac_fd[i][0]).abs().max()), float((jd - jac_fd[i][1]).abs().max()))
+            consistent[i] = dev <= 1e-6 * (1.0 + float(jac_fd[i][0].abs().max()) + float(jac_fd[i][1].abs().max()))
+            if not consistent[i]:
+                r.setdefault("pulser_jacobian_inconsistent", []).append({"kind": kind, "param": pnames[i], "max_dev": dev})
+    except Exception as ex:  # Pulser-side sampling problem: end-to-end comparison cannot be attributed
+        r["skipped"] = f"pulser sampling Jacobian unavailable: {type(ex).__name__}: {str(ex)[:80]}"
+        return r
+    # ---- end to end: AD w.r.t. the waveform parameters vs finite differences (where Pulser's Jacobian is consistent)
     for i in used:
         g = grads[i]
         g = torch.tensor(0.0, dtype=torch.float64) if g is None else g
-        pname = ["amplitude", "detuning", "second"][i]
+        pname = pnames[i]
         if not bool(torch.isfinite(g)):
             cause = {"constant": "flat-segment", "composite": "flat-segment", "two-pulses": "flat-segment", "blackman-constant-detuning": "flat-segment",
                      "blackman": "symmetric-or-flat-peak"}.get(kind, "other")
             r["fails"].append(("nonfinite", f"waveform-param:{cause}", {"kind": kind, "param": pname, "grad": repr(float(g)), "duration": item["duration"], "dt": dt}))
+            continue
+        if not consistent[i]:
             continue
 
         def fun(s, i=i):
@@ -515,13 +591,68 @@ def pulser_worker(item: dict) -> dict:
             with torch.no_grad():
                 return float(forward(q))
 
-        fd, spread = _fd(fun, 1e-2)
         ad = float(g)
-        budget = 1e-5 * max(abs(ad), abs(fd)) + 1e-7 * max(1.0, abs(base_val)) + 2 * spread
+        fd, budget, err = _compare(ad, fun, 1e-2, noise_L, floor)
         r["checked"] += 1
-        r["worst"] = max(r["worst"], abs(ad - fd) / budget)
-        if abs(ad - fd) > budget:
+        r["worst"] = max(r["worst"], err / budget)
+        if err > budget:
             r["fails"].append(("mismatch", "waveform-param", {"kind": kind, "param": pname, "ad": ad, "fd": fd, "budget": budget}))
+    # ---- sample level: the emulators' own part.  The same drive given as CustomWaveforms of tensors; AD w.r.t. the
+    # samples, contracted with the TRUE tangent of each waveform parameter (finite differences of Pulser's samples),
+    # vs finite differences of the emulated result along that tangent.
+    segs = []
+    start = 0
+    for j in range(1, T + 1):
+        if j == T or float(ph0[j]) != float(ph0[start]):
+            segs.append((start, j, float(ph0[start])))
+            start = j
+
+    def forward_samples(ya, yd):
+        reg = pulser.Register({f"q{i}": [7.0 * i, 0.0] for i in range(n)})
+        seq = pulser.Sequence(reg, pulser.MockDevice)
+        seq.declare_channel("ryd", "rydberg_global")
+        for (s0, s1, phv) in segs:
+            seq.add(pulser.Pulse(pulser.CustomWaveform(ya[s0:s1]), pulser.CustomWaveform(yd[s0:s1]), phv), "ryd")
+        cfg = SVConfig(observables=[Occupation(evaluation_times=[1.0])], log_level=logging.ERROR, gpu=False, dt=dt, krylov_tolerance=FD_TOL)
+        res = SVBackend(seq, config=cfg).run()
+        return (torch.as_tensor(res.occupation[-1]) * w).sum()
+
+    ya0 = a0.detach().clone().clamp(min=0.0)
+    yd0 = d0.detach().clone()
+    try:
+        with torch.no_grad():
+            same = abs(float(forward_samples(ya0, yd0)) - base_val) <= 1e-9 * max(1.0, abs(base_val))
+        if not same or any(s1 - s0 < 1 for s0, s1, _ in segs):
+            r["sample_level"] = "skipped: the CustomWaveform re-build does not reproduce the run"
+            return r
+        lya, lyd = ya0.clone().requires_grad_(True), yd0.clone().requires_grad_(True)
+        ga, gd = torch.autograd.grad(forward_samples(lya, lyd), (lya, lyd), allow_unused=True)
+    except Exception as ex:
+        if "numpy() on Tensor that requires grad" in str(ex) or "pulser" in type(ex).__module__:
+            r["sample_level"] = f"skipped: pulser refuses tensor CustomWaveforms ({type(ex).__name__})"
+            return r
+        r["fails"].append(("raises", classify_exc(ex), {"error": f"{type(ex).__name__}: {str(ex)[:200]}", "context": f"pulser CustomWaveform samples of {kind}"}))
+        return r
+    ga = torch.zeros(T, dtype=torch.float64) if ga is None else ga
+    gd = torch.zeros(T, dtype=torch.float64) if gd is None else gd
+    if not bool(torch.isfinite(ga).all() and torch.isfinite(gd).all()):
+        r["fails"].append(("nonfinite", "waveform-samples", {"kind": kind, "duration": item["duration"], "dt": dt}))
+        return r
+    for i in used:
+        va, vd = jac_fd[i]
+        if bool(((ya0 == 0) & (va != 0)).any()):
+            continue  # the tangent would push a zero amplitude below zero on one side (clamp kink): not a smooth direction
+        ad = float((ga * va).sum() + (gd * vd).sum())
+
+        def fun(s, va=va, vd=vd):
+            with torch.no_grad():
+                return float(forward_samples((ya0 + s * va).clamp(min=0.0), yd0 + s * vd))
+
+        fd, budget, err = _compare(ad, fun, 1e-2, noise_L, floor)
+        r["checked"] += 1
+        r["worst"] = max(r["worst"], err / budget)
+        if err > budget:
+            r["fails"].append(("mismatch", "waveform-samples", {"kind": kind, "param_tangent": pnames[i], "ad": ad, "fd": fd, "budget": budget}))
     return r
 
 
@@ -607,7 +738,8 @@ def run(ctx: Ctx) -> None:
     ctx.assumptions += [
         "PchipGrad.tla: the abstract domain ignores overflow / underflow of finite non-zero magnitudes; torch.autograd's rules for div / where / abs are transcribed by hand and CHECKED every run against the real autograd on concretised patterns",
         "model checking covers only the finiteness clause on the interpolation's slope computation (the only data-dependent divisions); equality with finite differences is explored, not proved",
-        "finite differences: Richardson-extrapolated central differences (steps 2e-2 and 1e-2) of the same real forward computation; budget 1e-5 relative + 1e-7 x max(1,|loss|) + twice the spread of the two step sizes",
+        "finite differences: central differences at three steps (4e-2, 2e-2, 1e-2) of the same real forward computation at krylov_tolerance 1e-12 and their two Richardson extrapolations; budget 1e-5 relative + 4 x their disagreement + 4 x (10 tol x steps x Lipschitz constant of the loss) / step + 1e-8 x max(1,|loss|); an alarm needs the AD value outside the budget of BOTH extrapolations",
+        "Pulser's differentiable sampling is trusted only where its autograd Jacobian agrees with finite differences of its own samples (RampWaveform's clip to [start, stop] drops the gradient of an end sample); elsewhere the end-to-end comparison is skipped (counted) and the emulators' part is compared at sample level (CustomWaveform tensors, tangent of each waveform parameter)",
         "runs use krylov_tolerance 1e-10 / 1e-12; cases whose forward pass fails WITHOUT autograd are skipped (other properties' subject); Pulser waveforms Pulser itself cannot sample from tensors (InterpolatedWaveform) are out of scope",
         "TLC, torch.autograd, Pulser's differentiable sampling",
     ]
@@ -715,7 +847,12 @@ def run(ctx: Ctx) -> None:
     skipped: dict[str, int] = {}
     worst = 0.0
     checked = 0
+    pj: list = []
+    sl_skipped: dict[str, int] = {}
     for it, r in zip(items, results):
+        pj += r.get("pulser_jacobian_inconsistent", [])
+        if r.get("sample_level"):
+            sl_skipped[r["sample_level"][:80]] = sl_skipped.get(r["sample_level"][:80], 0) + 1
         if r.get("skipped") and str(r["skipped"]).startswith("HARNESS"):
             raise MachineryError(f"harness error in stratum {it['stratum']}: {r['skipped']}")
         tag = it["stratum"] + ":" + (it.get("loss") or it.get("kind")) + ":" + str(it.get("phase", ""))
@@ -731,6 +868,8 @@ def run(ctx: Ctx) -> None:
     ctx.coverage["sv_strata"] = strata
     ctx.coverage["sv_skipped"] = skipped
     ctx.coverage["directional_derivatives_compared"] = checked
+    ctx.coverage["pulser_sampling_jacobian_inconsistent_with_its_own_samples"] = {"count": len(pj), "examples": pj[:4]}
+    ctx.coverage["sample_level_skipped"] = sl_skipped
     ctx.coverage["worst_margin_err_over_budget_on_passing_cases"] = worst
     if checked < 50:
         raise MachineryError(f"vacuity: only {checked} directional derivatives compared")
